@@ -746,6 +746,38 @@ func ruleCellFresh(c *Ctx) []Obligation {
 						ct := info.TypeOf(ix.X)
 						if ct != nil && (isCellSlice(ct) || isCellMap(ct)) && isSink(ix.X) {
 							cont := canon(ix.X)
+							// a variable of one scope bound under a name in another scope (an import): the VARIABLE is shared
+							// by design, this is not a value stored into a second container
+							isScopeElem := func(e ast.Expr) bool {
+								x, ok := ast.Unparen(e).(*ast.IndexExpr)
+								if !ok {
+									return false
+								}
+								t := info.TypeOf(x.X)
+								if t == nil {
+									return false
+								}
+								sl, ok := t.Underlying().(*types.Slice)
+								return ok && isCellMap(sl.Elem())
+							}
+							src := ast.Unparen(s.Rhs[i])
+							if id, ok := src.(*ast.Ident); ok {
+								if obj := info.Uses[id]; obj != nil && isLocalVar(info, fi.fd, obj) {
+									if defs := defsIn(info, fi.fd, obj); len(defs) == 1 {
+										src = ast.Unparen(defs[0])
+									}
+								}
+							}
+							if sx, ok := src.(*ast.IndexExpr); ok && isScopeElem(sx.X) && isScopeElem(ix.X) {
+								key := fmt.Sprintf("cell|%s|variable of another scope bound into %s", fname, cont)
+								seen[key]++
+								if seen[key] > 1 {
+									key += fmt.Sprintf("#%d", seen[key])
+								}
+								obs = append(obs, Obligation{Key: key, Pos: c.Pos(s.Pos()), Nontrivial: true, Status: Discharged,
+									Detail: "binds the variable cell " + exprStr(sx) + " of another scope list under a name of this scope: an alias of the variable itself (import of a global), not a value stored into a second container"})
+								continue
+							}
 							report(s.Pos(), "element store into "+cont, cont, s.Rhs[i], fi.fd)
 						}
 					}
